@@ -105,3 +105,23 @@ Proof.
   assert (E := spec_offset_inj (flip l) _ _ _ Hin Hin' Heq).
   injection E as E1 E2. split; assumption.
 Qed.
+
+(** * strided layouts: every in-range access lies below the mapping's own required_span_size() *)
+From Tetl Require Import C19.ProofsReq.
+Theorem strided_access_below_required : forall t e ss idx, wf_ity t -> wf_ext t e ->
+  in_range idx (extents_list t e) -> length ss = rank e ->
+  Forall (fun s => 0 <= s <= imax t) ss -> stride_required (extents_list t e) ss <= imax t ->
+  exists o rq, strided_map t (strided_ctor t e ss) idx = Some o
+               /\ strided_required t (strided_ctor t e ss) = Some rq
+               /\ 0 <= o < rq.
+Proof.
+  intros t e ss idx Hwf Hwe Hin Hl Hs Hreq.
+  assert (Hpos := in_range_pos _ _ Hin).
+  assert (Hnn : Forall (fun x => 0 <= x) (extents_list t e)).
+  { clear -Hpos. induction Hpos; constructor; [lia | assumption]. }
+  assert (Hmax : span_max (extents_list t e) ss <= imax t).
+  { unfold stride_required in Hreq. rewrite (no_zero_extent _ _ Hin) in Hreq. lia. }
+  destruct (strided_map_in_bounds t e ss idx Hwf Hwe Hin Hl Hs Hmax) as [o [Ho Hb]].
+  exists o, (stride_required (extents_list t e) ss). split; [exact Ho|]. split; [|exact Hb].
+  apply strided_required_spec; assumption.
+Qed.
